@@ -225,6 +225,10 @@ def load_known(prop):
 def _run_one(prop, known, ctx, case, state):
     """Run a case; returns None or raises Violation if it is the (first) unknown signature."""
     ctx.evaluations += 1
+    crumb = os.environ.get("VERIF_BREADCRUMB")
+    if crumb:  # crash isolation re-run: remember the case about to run, in case the interpreter dies in it
+        with open(crumb, "w") as fh:
+            json.dump(case, fh, default=str)
     try:
         prop.run_case(case, ctx)
     except Violation as v:
@@ -240,6 +244,17 @@ def _run_one(prop, known, ctx, case, state):
             return
         state["last"] = (case, v)
         raise
+
+
+def _limit_memory():
+    """A runaway allocation inside a worker raises MemoryError (judged by the oracle) instead of taking the host down."""
+    try:
+        import resource
+
+        lim = int(os.environ.get("VERIF_WORKER_MEM_GB", "3")) << 30
+        resource.setrlimit(resource.RLIMIT_AS, (lim, lim))
+    except Exception:  # noqa: BLE001 - best effort
+        pass
 
 
 def _worker(args):
@@ -317,6 +332,53 @@ def _worker(args):
         return {"harness_error": f"{e}\n{traceback.format_exc()}"}
     except Exception:  # noqa: BLE001
         return {"harness_error": traceback.format_exc()}
+
+
+def _job_proc(job, q):
+    _limit_memory()
+    q.put(_worker(job))
+
+
+def _isolate_crash(prop, jobs, ctx_mp):
+    """A worker died abruptly (interpreter crash inside the code under test, or an OOM kill). Re-run every job in its
+    own process with a breadcrumb file; the case a dying process was executing becomes an 'interpreter-crash' violation."""
+    import tempfile
+
+    results = []
+    tmp = tempfile.mkdtemp(prefix="vp-crumb-")
+    try:
+        for job in jobs:
+            crumb = os.path.join(tmp, "crumb.json")
+            if os.path.exists(crumb):
+                os.remove(crumb)
+            os.environ["VERIF_BREADCRUMB"] = crumb
+            q = ctx_mp.Queue()
+            p = ctx_mp.Process(target=_job_proc, args=(job, q))
+            p.start()
+            res = None
+            while p.is_alive() or not q.empty():
+                try:
+                    res = q.get(timeout=0.5)
+                    break
+                except Exception:  # noqa: BLE001 - queue.Empty
+                    continue
+            p.join()
+            if res is None:
+                if not os.path.exists(crumb):
+                    return None
+                with open(crumb) as fh:
+                    case = json.load(fh)
+                kind = "interpreter-crash"
+                detail = f"the Python process died (exit code {p.exitcode}) while running this case"
+                res = Ctx().export()
+                res.update(wall=0.0, failure={"case": case, "kind": kind, "detail": detail, "signature": kind})
+            results.append(res)
+    finally:
+        os.environ.pop("VERIF_BREADCRUMB", None)
+        import shutil
+
+        shutil.rmtree(tmp, ignore_errors=True)
+    return results
 
 
 def minimise(prop, known, failure, budget_s=20.0):
@@ -419,8 +481,18 @@ def run_check(prop, tier, seed, replay=None):
             jobs.append((prop.__name__.split(".")[-1], si, sh, tier, seed, ()))
     nproc = min(16, max(1, len(jobs)))
     ctx_mp = multiprocessing.get_context("fork")
-    with ctx_mp.Pool(nproc) as pool:
-        results = pool.map(_worker, jobs, chunksize=1)
+    # ProcessPoolExecutor (unlike Pool.map) notices a worker that died (OOM kill, interpreter crash): harness error
+    from concurrent.futures import ProcessPoolExecutor
+    from concurrent.futures.process import BrokenProcessPool
+
+    try:
+        with ProcessPoolExecutor(max_workers=nproc, mp_context=ctx_mp, initializer=_limit_memory) as pool:
+            results = list(pool.map(_worker, jobs, chunksize=1))
+    except BrokenProcessPool:
+        results = _isolate_crash(prop, jobs, ctx_mp)
+        if results is None:
+            print(f"HARNESS ERROR in {prop.ID}: a worker process died and the crash could not be attributed to a case (OOM kill? see dmesg)", file=sys.stderr)
+            return 2
 
     total_eval = 0
     nontrivial = set()
